@@ -194,10 +194,29 @@ def edit_op(rnd, f='a', span=12, other=None, weights=None):
 
 def motif(rnd, f='a', span=12):
     """short directed sequences aimed at incremental-update corner cases (each step is an ordinary editing operation)"""
-    k = rnd.choice(['introduce', 'there-and-back', 'swap', 'chain-edit', 'erase-recreate', 'func-body-edit', 'index-edit', 'func-retype', 'text-ref-erase'])
+    k = rnd.choice(['introduce', 'there-and-back', 'swap', 'chain-edit', 'erase-recreate', 'func-body-edit', 'index-edit', 'func-retype', 'text-ref-erase', 'tracked-duplicate', 'shared-formal'])
     i, j, t = rnd.randrange(span), rnd.randrange(span), rnd.randrange(span)
     name = rnd.choice(DANGLING[:6])
     mk = lambda **kw: dict({'op': 'form.op', 'f': f}, **kw)
+    if k == 'shared-formal':
+        # two functions share a formal name: one call binds it to a property, a later call of the other binds it to a value
+        return [mk(k='emplace', type='function', **{'def': '[α∈ℬℬ($[0])] α\\α'}),
+                mk(k='emplace', type='function', **{'def': '[α∈ℬ($[0]), β∈ℬℬ($[0])] {α}∩β'}),
+                mk(k='emplace', type='term', **{'def': '$[-2][ℬ($[0])]'}),
+                mk(k='setexpr', uid={'idx': -1}, text=rnd.choice(['$[0]', 'ℬ($[0])'])),
+                mk(k='emplace', type='term', **{'def': '$[-2][$[0], ℬ($[0])]'}),
+                mk(k='emplace', type='axiom', **{'def': 'card($[-1])≥0'})]
+    if k == 'tracked-duplicate':
+        # two identical constituents, the later one tracked; duplicate elimination removes it; its identifier comes back
+        d = rnd.choice(['$[0]\\$[0]', 'ℬ($[0])', '$[0]∪$[%d]' % j])
+        rec = {'uid': {'gone': -1}, 'alias': 'D9', 'type': 'term', 'rs': '$[0]', 'conv': '', 'term': '', 'text': ''}
+        return [mk(k='emplace', type='term', **{'def': d}),
+                mk(k='emplace', type='term', **{'def': d}),
+                mk(k='track', uid={'idx': -1}, flags=[rnd.random() < 0.5, False, False, False]),
+                mk(k='dedup'),
+                mk(k='insertcopy_rec', rec=rec),
+                mk(k='setexpr', uid={'idx': -1}, text='$[0]∪$[0]'),
+                mk(k='erase', uid={'idx': -1})]
     if k == 'func-retype':
         # a function is redefined with the same arity but another argument type while constituents call it
         return [mk(k='emplace', type='function', **{'def': '[α∈ℬ($[0])] α∪α'}),
